@@ -1272,6 +1272,10 @@ func (pk *packer) scanChunks(ctx context.Context) error {
 			return errors.New("file uses complicated schema. not packing")
 		}
 		pk.schemaParent[p.BlobRef] = append([]blob.Ref(nil), schemaPath...) // clone it
+		if sz, ok := pk.dataSize[p.BlobRef]; ok && sz != uint32(p.Size) {
+			// dataSize holds one size per blob: writeAZip could not tell the parts apart.
+			return errors.New("file references one blob with two different part sizes. not packing")
+		}
 		pk.dataSize[p.BlobRef] = uint32(p.Size)
 		for _, schemaRef := range schemaPath {
 			if schemaSeen[schemaRef] {
